@@ -6,7 +6,8 @@ open BsVerif.Dqe
 #print axioms C07_index_set
 #print axioms C07_slice
 #print axioms C07_slice_array
-#print axioms C07_slice_total_counterexample
+#print axioms C07_slice_total
+#print axioms C07_slice_none_iff
 #print axioms C07_canonic_len
 #print axioms C07_canonic_plain
 #print axioms C07_deref_address_partial
